@@ -29,6 +29,9 @@ CONFIGS = {
     'P':   ('', '', [], '-O2'),
     'PZ':  ('', '', ['USINGZ'], '-O2'),
     'PH':  ('', '', ['CLIPPER2_HI_PRECISION=1'], '-O2'),
+    # diagnostics only (./check reach): source-based coverage of the library TUs under a property's workload
+    'COV':  ('', '', [], '-O1'),
+    'COVZ': ('', '', ['USINGZ'], '-O1'),
 }
 
 RUNTIME_STATE_SYMS = ['rand', 'srand', 'random', 'srandom', 'drand48', 'lrand48', 'mrand48', 'srand48', 'strtok', 'setlocale', 'putenv', 'setenv', 'unsetenv',
@@ -71,6 +74,10 @@ def flags_for(cfg):
                # process-global state of the C/C++ runtime: any use by library code is reported (C14)
                '-Wl,' + ','.join('--wrap=' + s for s in RUNTIME_STATE_SYMS)]
     link_exe = sanflags + ['-rdynamic', '-lpthread', '-ldl']
+    if cfg.startswith('COV'):
+        lib += ['-fprofile-instr-generate', '-fcoverage-mapping']
+        link_so.append('-fprofile-instr-generate')
+        link_exe.append('-fprofile-instr-generate')
     return lib, exe, link_so, link_exe
 
 
